@@ -39,6 +39,7 @@ fn main() {
         "c03" => c03::main(tier),
         "c05" => c05::main(tier),
         "c05-child" => c05::child(&args[2..]),
+        "c05-describe" => c05::describe_cmd(&args[2..]),
         "c07" => c07::main(tier),
         "c08" => c08::main(tier),
         "c09" => c09::main(tier),
